@@ -16,6 +16,7 @@ type c14Case struct {
 	Feats  []Feat `json:"features"`
 	Via    string `json:"via"` // variants | samvariants
 	Sorted bool   `json:"gffsorted,omitempty"` // GFF rows in coordinate order across features instead of grouped by feature
+	AltCase bool  `json:"altcase,omitempty"`   // sequence letters in the other case: GenBank ORIGIN upper-case, GFF ##FASTA lower-case
 	RefRow string `json:"refrow"`
 	QRows  []string `json:"queryrows"`
 }
@@ -265,8 +266,14 @@ func c14Run(c c14Case, format string) (Obs, map[string]string) {
 		if c.Sorted {
 			anno = sortGFFRows(anno)
 		}
+		if c.AltCase {
+			anno = caseAfter(anno, "##FASTA\n", strings.ToLower)
+		}
 	} else {
 		anno = renderGenbank(c.Genome, c.Feats)
+		if c.AltCase {
+			anno = caseAfter(anno, "\nORIGIN\n", strings.ToUpper)
+		}
 	}
 	var call Call
 	if c.Via == "samvariants" {
@@ -454,6 +461,14 @@ func init() {
 						c14Check(cs, res)
 						res.States += len(rows)
 					}
+					if idx%5 == 0 {
+						// the annotation's own sequence in the other letter case (GenBank ORIGIN upper, ##FASTA lower)
+						ca := c
+						ca.AltCase = true
+						ca.QRows = rows[:len(rows)/3]
+						c14Check(ca, res)
+						res.States += len(ca.QRows)
+					}
 					c14Check(c14Case{Genome: genome, Feats: feats, Via: via, RefRow: insRef, QRows: insRows}, res)
 					res.States += len(rows) + len(insRows)
 					if idx == 33 {
@@ -487,6 +502,21 @@ func init() {
 			return res
 		},
 	})
+}
+
+// caseAfter changes the case of the sequence lines that follow marker (FASTA header lines stay as they are).
+func caseAfter(text, marker string, f func(string) string) string {
+	i := strings.Index(text, marker)
+	if i < 0 {
+		return text
+	}
+	lines := strings.Split(text[i+len(marker):], "\n")
+	for k, l := range lines {
+		if !strings.HasPrefix(l, ">") {
+			lines[k] = f(l)
+		}
+	}
+	return text[:i+len(marker)] + strings.Join(lines, "\n")
 }
 
 // sortGFFRows re-orders the feature rows of a GFF3 text by start coordinate (stable), as
